@@ -70,13 +70,15 @@ fn put16(b: &mut [u8], off: usize, v: usize) {
     b[off + 1] = v as u8;
 }
 
-/// which of the two known departures of the unchanged tree a harness is about
+/// which part of the input space a harness looks at
 #[derive(Clone, Copy, PartialEq, Eq)]
 pub enum Split {
-    /// assume the defect's predicate away (must pass)
+    /// everything the template allows
     Main,
-    /// assume the defect's predicate (expected to fail on the unchanged tree)
-    KfAuthnakKiss,
+    /// only unauthenticated NTPv5 datagrams with stratum 0, the authnak flag and a poll byte that
+    /// reads as RATE (> own interval) or DENY (127): the region in which the tree before 9b98367
+    /// raised the poll rate / demobilised the source without authentication
+    AuthnakKiss,
 }
 
 fn c07_body(lay: Layout, msg: &mut [u8], split: Split) -> Obs {
@@ -99,12 +101,6 @@ fn c07_body(lay: Layout, msg: &mut [u8], split: Split) -> Obs {
     let deadline_s: i64 = kani::any();
     let deadline_n: u32 = kani::any();
     kani::assume(deadline_s >= 0 && deadline_s < (1 << 40) && deadline_n < 1_000_000_000);
-    if split == Split::KfAuthnakKiss {
-        // the counterexample is replayed natively against the real monotonic clock: keep the
-        // deadline of the pending request in the far future so that the replay does not depend on
-        // the uptime of the machine
-        kani::assume(deadline_s >= (1 << 36));
-    }
     let uid_match: bool = kani::any();
     let origin_match: bool = kani::any();
     let authentic: bool = lay.authentic;
@@ -220,18 +216,19 @@ fn c07_body(lay: Layout, msg: &mut [u8], split: Split) -> Obs {
     };
     assert!(st0.pending && ctl0_meas == 0);
 
-    // known departure of the unchanged tree (see the C07 props file): an UNAUTHENTICATED NTPv5
-    // datagram with stratum 0 and the authnak flag is let through by `valid_server_response`
-    // (NTS-NAK exception) and then hits the RATE / DENY branches, which come before the NTS-NAK one
+    // an UNAUTHENTICATED NTPv5 datagram with stratum 0 and the authnak flag is let through by
+    // `valid_server_response` (NTS-NAK exception); it must then be treated as an NTS-NAK (no effect)
+    // even if its poll byte reads as RATE or DENY (fixed in 9b98367: the NTS-NAK branch comes first)
     let pollb = msg[2] as i8;
     let last = th::poll_raw(st0.last_poll_interval);
-    let kf_pred = lay.v5 && msg[1] == 0 && (msg[15] & 0b100) != 0 && (pollb == 127 || pollb > last);
+    let authnak_kiss = lay.v5 && msg[1] == 0 && (msg[15] & 0b100) != 0 && (pollb == 127 || pollb > last);
     // a datagram the model could authenticate at all (decided before the call)
     let may_accept = authentic && lay.has_nts && bound;
-    match split {
-        Split::Main => kani::assume(!(kf_pred && !may_accept)),
-        Split::KfAuthnakKiss => kani::assume(kf_pred && !may_accept),
+    if split == Split::AuthnakKiss {
+        kani::assume(authnak_kiss && !may_accept);
     }
+    // the pending request has not expired at the first clock reading of handle_incoming
+    let timely = unsafe { (deadline_s, deadline_n) >= (stubs::NOW_SECS[0], stubs::NOW_NANOS[0]) };
 
     // ---- the call under test
     let (racts, rn) = collect_actions(src.handle_incoming(msg, th::ts_from_raw(send_raw), th::ts_from_raw(recv_raw)));
@@ -313,6 +310,8 @@ fn c07_body(lay: Layout, msg: &mut [u8], split: Split) -> Obs {
         auth_kiss: accepted_ok && rn == 1,
         unauth_kiss_bound: !accepted_ok && bound && msg[1] == 0,
         unauth_bound: !accepted_ok && bound,
+        authnak_deny: !accepted_ok && bound && timely && authnak_kiss && pollb == 127,
+        authnak_rate: !accepted_ok && bound && timely && authnak_kiss && pollb != 127,
     }
 }
 
@@ -325,6 +324,9 @@ pub struct Obs {
     auth_kiss: bool,
     unauth_kiss_bound: bool,
     unauth_bound: bool,
+    /// in-time, correctly identified, unauthenticated NTS-NAK whose poll byte reads as DENY / RATE
+    authnak_deny: bool,
+    authnak_rate: bool,
 }
 
 /// templates with an authenticator field that the server really produced
@@ -400,8 +402,8 @@ macro_rules! c07_plain {
         }
     };
 }
-/// the known departure: no vacuity guard needed, the counterexample is the witness
-macro_rules! c07_kf {
+/// the region of the former defect (see `Split::AuthnakKiss`): must leave everything unchanged
+macro_rules! c07_authnak_kiss {
     ($name:ident, $lay:expr) => {
         nharness! {
             #[kani::unwind(8)]
@@ -410,7 +412,10 @@ macro_rules! c07_kf {
             fn $name() {
                 const L: Layout = $lay;
                 let mut msg: [u8; L.total() + 1] = kani::any();
-                let _ = c07_body(L, &mut msg[..L.total()], Split::KfAuthnakKiss);
+                let o = c07_body(L, &mut msg[..L.total()], Split::AuthnakKiss);
+                assert!(!o.processed && !o.auth_kiss, "nothing is accepted without an authenticator");
+                kani::cover!(o.authnak_deny, "in-time unauthenticated NTS-NAK with the right identifiers that reads as DENY");
+                kani::cover!(o.authnak_rate, "in-time unauthenticated NTS-NAK with the right identifiers that reads as RATE");
             }
         }
     };
@@ -421,7 +426,7 @@ const fn lay(v5: bool, b15: u8, authentic: bool, y_len: usize, has_nts: bool, in
 }
 
 // Registered (lib/props/C07.py): c07_v4_plain, c07_v5_plain_authnak, c07_v5_plain_sync,
-// c07_v5_plain_kf_authnak_kiss. NOT registered (symbolic execution of handle_incoming / deserialize
+// c07_v5_plain_authnak_kiss. NOT registered (symbolic execution of handle_incoming / deserialize
 // exceeds 8 GB as soon as an authenticator field is decrypted, genuine or forged; kept for a machine
 // with more memory): c07_v4_genuine*, c07_v4_forged, c07_v5_genuine*, c07_v5_forged, c07_parse_*.
 // NTPv4
@@ -438,7 +443,7 @@ c07_genuine!(c07_v5_genuine, lay(true, 0x01, true, 0, true, 1, 0));
 c07_genuine_nocookie!(c07_v5_genuine_pre, lay(true, 0x01, true, 20, true, 0, 0));
 c07_genuine_nocookie!(c07_v5_genuine_post, lay(true, 0x01, true, 0, true, 0, 20));
 c07_forged!(c07_v5_forged, lay(true, 0x04, false, 0, true, 1, 0));
-c07_kf!(c07_v5_plain_kf_authnak_kiss, lay(true, 0x04, false, 0, false, 0, 0));
+c07_authnak_kiss!(c07_v5_plain_authnak_kiss, lay(true, 0x04, false, 0, false, 0, 0));
 
 // ------------------------------------------------------------------------------------------
 // Parser level: which fields of an authenticated datagram end up in which trust class and which
